@@ -112,7 +112,12 @@ pub const C_CUTOFF: f64 = 1e6;
 /// C03: oscillators; returns the number of components skipped as ill-conditioned / degenerate.
 pub fn osc_judgements(p: &Params, out: &Out, r: &RefOut, res: &mut Judgements) -> usize {
     let tq = tau(r.t);
-    if r.degenerate || r.near_tie {
+    // Degenerate steps have no formula value to compare with, except where the statement names the
+    // neutral output and the degenerate case is decided without rounding: FastStochastic's high_n == low_n
+    // is a comparison of raw inputs (50, and SlowStochastic averages it), and a CCI window of bit-identical
+    // bars has MAD exactly 0 in any arithmetic (0).
+    let neutral_is_exact = matches!(p.kind, Kind::Fast | Kind::Slow) || (p.kind == Kind::Cci && r.exact_neutral);
+    if (r.degenerate && !neutral_is_exact) || r.near_tie {
         return out.n;
     }
     let mut skipped = 0;
